@@ -4,11 +4,14 @@
   Property theorems only (helpers: Lemmas.lean; model: Model.lean).  `fns : Fns F` ranges over ALL
   discretization / exp / isnan functions, `F` over all number types unless `Rat` is written.
   The clause "keeps predicting the same after copies, assignments, moves and after the original
-  individual is gone" has no content in Lean (values are immutable): it is carried by the harness
-  under ASan alone (partial).
+  individual is gone" is the section "object lifetime": a heap of individuals, model objects whose
+  interpreter holds an ADDRESS, and the special member functions as a table generated from the
+  clang AST (GenStorage.lean).
 -/
 import Vita.C08.Lemmas
 import Vita.C08.Laws
+import Vita.C08.LifeLemmas
+import Vita.C08.GenStorage
 import Vita.C05.Props
 
 namespace Vita.C08
@@ -313,6 +316,86 @@ theorem binary_evaluator_scores_model (d : List (TEx Rat)) :
   simp only [nWrong, List.filter_map, List.length_map]
   rfl
 
+/-! ## object lifetime (detail/lambda_f.h: `reg_lambda_f_storage`, the core of every model object) -/
+
+section lifetime
+open Life
+
+/-- `S = true`.  For EVERY table of special member functions in which constructors and assignments
+    take the source's individual and (re-)seat the interpreter on the object's own copy, in EVERY
+    history (the caller creates, overwrites, destroys individuals at will – the original included;
+    models are constructed, copy / move constructed, copy / move assigned – self-assignment
+    included –, destroyed, in any order) every live storing model's interpreter points at that
+    object's own stored individual, which is alive and IS the individual the object stands for:
+    never dangling, never another object's. -/
+theorem stored_model_owns_its_individual {P : Type} (tbl : Bool → Smf) (hw : WellSeated (tbl true) = true)
+    (junk : P → P) (h : List (Op P)) (i : Nat) (o : Obj P)
+    (ho : (run tbl junk h).objs i = some o) (hs : o.stored = true) :
+    o.ptr = o.cell ∧ (run tbl junk h).read i = some o.prog ∧ (run tbl junk h).ext o.ptr = false := by
+  have inv := run_inv tbl hw junk h St.init inv_init
+  obtain ⟨h1, h2, _, h4⟩ := inv.own i o (by simp) ho hs
+  refine ⟨h1, ?_, by rw [h1]; exact h4⟩
+  show ((run tbl junk h).objs i).bind _ = _
+  rw [ho]; simp only [Option.bind]; rw [h1]; exact h2
+
+/-- … and two live storing models never share the individual they read -/
+theorem stored_models_do_not_share {P : Type} (tbl : Bool → Smf) (hw : WellSeated (tbl true) = true)
+    (junk : P → P) (h : List (Op P)) (i j : Nat) (oi oj : Obj P) (hij : i ≠ j)
+    (hi : (run tbl junk h).objs i = some oi) (hj : (run tbl junk h).objs j = some oj)
+    (hsi : oi.stored = true) (hsj : oj.stored = true) : oi.ptr ≠ oj.ptr := by
+  have inv := run_inv tbl hw junk h St.init inv_init
+  have h1 := (inv.own i oi (by simp) hi hsi).1
+  have h2 := (inv.own j oj (by simp) hj hsj).1
+  intro hp
+  exact hij (inv.inj i j oi oj (by simp) (by simp) hi hj hsi hsj (by rw [← h1, ← h2]; exact hp))
+
+/-- `S = false` (what the evaluators use internally): under the DOCUMENTED precondition – the caller
+    neither overwrites nor destroys an individual a live reference-only model points at – the model
+    reads the individual it stands for; copies / assignments carry the pointer along. -/
+theorem ref_model_under_precondition {P : Type} (tbl : Bool → Smf) (hw : WellSeated (tbl true) = true)
+    (hr : WellRef (tbl false) = true) (junk : P → P) (h : List (Op P))
+    (hsafe : RefSafe tbl junk St.init h) (i : Nat) (o : Obj P)
+    (ho : (run tbl junk h).objs i = some o) (hs : o.stored = false) :
+    (run tbl junk h).read i = some o.prog := by
+  have inv := run_invR tbl hw hr junk h St.init inv_init (by intro i o _ h; simp [St.init] at h) hsafe
+  show ((run tbl junk h).objs i).bind _ = _
+  rw [ho]; exact (inv i o (by simp) ho hs).1
+
+/-- the special member functions of the CURRENT source (generated table) -/
+def shippedTbl : Bool → Smf := fun stored => if stored then Gen.storedSmf else Gen.refSmf
+
+/-- the obligation on the current source: the storing flavour re-seats everywhere (a defaulted copy
+    assignment, a swapped interpreter, a forgotten `int_` … change the table and break this) -/
+theorem shipped_storage_well_seated : WellSeated (shippedTbl true) = true := by decide
+
+theorem shipped_ref_storage_well_formed : WellRef (shippedTbl false) = true := by decide
+
+/-- a de-serialised model binds the interpreter to its own individual too -/
+theorem shipped_load_seats_own : Gen.storedLoadPtr = .seatOwn := by decide
+
+/-- the team storage is a vector of member storages and declares no special member function: a team
+    model is copied / moved / destroyed member by member (a macro over the operations above) -/
+theorem shipped_team_storage_memberwise : Gen.teamFields = ["team_"] ∧ Gen.teamDeclared = [] := by decide
+
+/-- hence, for the code as it is: in every history every live model that stores its individual
+    predicts with its own, live copy of the individual it stands for -/
+theorem shipped_models_own_their_individual {P : Type} (junk : P → P) (h : List (Op P)) (i : Nat) (o : Obj P)
+    (ho : (run shippedTbl junk h).objs i = some o) (hs : o.stored = true) :
+    o.ptr = o.cell ∧ (run shippedTbl junk h).read i = some o.prog :=
+  let r := stored_model_owns_its_individual shippedTbl shipped_storage_well_seated junk h i o ho hs
+  ⟨r.1, r.2.1⟩
+
+/-- every `lambdify` hands out a model that STORES its individual … -/
+theorem lambdify_routes_store : ∀ r ∈ Gen.routes, r.2.2 = true := by decide
+
+/-- … the forwarding evaluators delegate to the evaluator they wrap, and `src_search::lambdify` asks
+    the TRAINING evaluator on every path -/
+theorem search_lambdify_asks_training_evaluator :
+    Gen.searchSel.onlyTraining = true ∧ Gen.constrainedSel = .member "eva_" ∧ Gen.proxySel = .member "eva_" := by
+  decide
+
+end lifetime
+
 /-! ## non-vacuity -/
 
 def idFns : Fns Rat := ⟨fun v last => (v.floor.toNat % (last + 1)), fun _ => 1, fun _ => false, 10000000⟩
@@ -323,5 +406,46 @@ example : teamValue [some (1 : Rat), none, some 3] = some 2 := by
 example : wta [(0, (1 : Rat) / 2), (1, 3 / 4), (2, 3 / 4)] = (1, 3 / 4) := by
   simp [wta]; grind
 example : (mv 3 [(2, (1 : Rat)), (1, 1), (2, 1)]).1 = 2 := by decide
+
+
+section lifetime_examples
+open Life
+
+/-- construct from individual 7, destroy the individual, copy the model, destroy the first model,
+    assign over a model of individual 9: every survivor still reads 7 -/
+def sampleHistory : List (Op Nat) :=
+  [.newInd 7, .newInd 9, .construct true 1, .construct true 2, .delInd 1, .copyConstruct 0, .destroy 0,
+   .copyAssign 1 2, .setInd 2 5]
+example : (run shippedTbl id sampleHistory).read 2 = some 7 ∧ (run shippedTbl id sampleHistory).read 1 = some 7 ∧
+    (run shippedTbl id sampleHistory).read 0 = none := by decide
+
+/-- a safe history of a reference-only model (the precondition is satisfiable) … -/
+example : RefSafe (P := Nat) shippedTbl id St.init [.newInd 7, .construct false 1, .copyConstruct 0, .newInd 8, .setInd 2 3] := by
+  simp [RefSafe, opSafe, step, St.init, upd, constructFrom, runMember, applyInd, applyPtr, shippedTbl, Gen.refSmf]
+  intro i o h _
+  repeat' split at h
+  all_goals first
+    | (injection h with h; subst h; simp)
+    | cases h
+
+/-- … and what the precondition protects from: overwrite the individual and the model follows it -/
+example : (run (P := Nat) shippedTbl id [.newInd 7, .construct false 1, .setInd 1 3]).read 0 = some 3 := by decide
+
+/-- the model DISTINGUISHES tables: with a memberwise (defaulted) copy the copy's interpreter still
+    points into the original model – destroy the original and the copy dangles -/
+def memberwiseTbl : Bool → Smf := fun _ =>
+  { Gen.storedSmf with copyCtor := ⟨.copy, .copyPtr⟩, copyAssign := ⟨.copy, .copyPtr⟩,
+                       moveCtor := ⟨.copy, .copyPtr⟩, moveAssign := ⟨.copy, .copyPtr⟩ }
+example : (run (P := Nat) memberwiseTbl id [.newInd 7, .construct true 1, .copyConstruct 0, .destroy 0]).read 1 = none := by
+  decide
+example : WellSeated (memberwiseTbl true) = false := by decide
+
+/-- a move assignment that swaps the interpreters too (seeded change C08-m1): after `a = move(b)` the
+    model `a` reads the OLD individual of `a`, which now lives in `b` -/
+def swapTbl : Bool → Smf := fun _ => { Gen.storedSmf with moveAssign := ⟨.swap, .swapPtr⟩ }
+example : (run (P := Nat) swapTbl id [.newInd 7, .newInd 9, .construct true 1, .construct true 2, .moveAssign 0 1]).read 0 = some 7 := by
+  decide
+
+end lifetime_examples
 
 end Vita.C08
